@@ -54,6 +54,65 @@ def gen_case(rng, multi_axis=False, k=None, N=None, general=False, wide=None):
     return base
 
 
+def residue_case(rng):
+    """two one-axis dims, inexact weights, and an EMPTY cell inside the common category of a dimension: its weight sums
+    are reconstructed by differencing the margins and come out as rounding residue rather than 0 — the cell must still
+    be missing, in every report format and for both cube types"""
+    for _attempt in range(60):
+        case = _residue_candidate(rng)
+        if _residue_visible(case):
+            return case
+    return case
+
+
+def _residue_visible(case):
+    """does differencing the margin of the emptied cell's column leave a non-zero float (summing in row order, as the
+    fill loops do)?  Only then can a missing-rule slip show; otherwise draw again."""
+    j, c, v = case["empty_common_cell"]
+    o = 1 - j
+    dj, do = case["dense"][j], case["dense"][o]
+    w = case["weights"][1].astype(float)
+    ok = case["weights"][2] if isinstance(case["weights"][2], np.ndarray) else np.ones(len(w), dtype=bool)
+    fk = case["fact_valid"] if case["fact_valid"].ndim == 1 else case["fact_valid"][:, 0]
+    margin, cells = 0.0, {}
+    for r in range(len(dj)):
+        if do[r] == v and ok[r] and fk[r]:
+            margin += w[r]
+            cells[int(dj[r])] = cells.get(int(dj[r]), 0.0) + w[r]
+    if len(cells) < 2:
+        return False
+    res = margin
+    for u in sorted(cells):
+        res -= cells[u]
+    res2 = margin - float(np.sum(np.array([cells[u] for u in sorted(cells)])))
+    return res != 0.0 and res2 != 0.0
+
+
+def _residue_candidate(rng):
+    while True:
+        case = gen_case(rng, k=2, N=rng.choice([9, 14, 20, 25]), general="residue")
+        if all(e >= 2 for e in case["extents"]):
+            break
+    j = rng.randrange(2)
+    o = 1 - j
+    dj, do = case["dense"][j], case["dense"][o]
+    c = rng.randrange(case["extents"][j])
+    case["commons"][j] = c
+    if not (dj == c).any():
+        dj[rng.randrange(len(dj))] = c
+    if (dj == c).all():
+        dj[rng.randrange(len(dj))] = (c + 1) % case["extents"][j]
+    v = rng.randrange(case["extents"][o])
+    for r in range(len(dj)):
+        if dj[r] == c and do[r] == v:
+            do[r] = (v + 1 + rng.randrange(case["extents"][o] - 1)) % case["extents"][o]
+    other = [r for r in range(len(dj)) if dj[r] != c]
+    do[rng.choice(other)] = v       # the category itself still occurs, outside the common slice
+    case["modes"] = ["forced"] * 2
+    case["empty_common_cell"] = [int(j), int(c), int(v)]
+    return case
+
+
 def by_category_missing(rng, case):
     """make the fact (or the weight) missing on exactly the rows of one or two categories of one dimension and valid
     elsewhere: whole cells without a valid row next to cells without a missing one (propagating policy)"""
